@@ -148,7 +148,7 @@ theorem pr_openSession {w0 w : World} (ti proto : Nat) (h : Pres w0 w) : Pres w0
     have zC : (wB.setSock w.socks.size fun s => { s with rs := .open_ }).socks.size = w.socks.size + 1 := by simp [zB]
     have rC : (wB.setSock w.socks.size fun s => { s with rs := .open_ }).registry = w.registry := rB
     generalize (wB.setSock w.socks.size fun s => { s with rs := .open_ }) = wC at pC sC zC rC ⊢
-    have q := openPackets_quiet wC w.socks.size (if (w.tr ti).isPolling = true then "polling" else "websocket")
+    have q := openPackets_quiet wC w.socks.size (w.tr ti).name
       (by rw [sC])
     apply pr_openAnnounce
     · rw [q.size, zC]; omega
@@ -187,6 +187,11 @@ theorem pr_hsWebsocket {w0 w : World} (proto : Nat) (b64 : Bool) (h : Pres w0 w)
     · apply pr_setConn; apply pr_ev; exact pr_fields _ h
     · apply pr_openSession
       exact pr_fields _ h
+
+theorem pr_hsWt {w0 w : World} (h : Pres w0 w) : Pres w0 (hsWt w) := by
+  unfold hsWt; try dsimp only
+  apply pr_openSession
+  exact pr_fields _ (pr_fields _ h)
 
 /-! ### requests of a session -/
 
@@ -243,6 +248,17 @@ theorem pr_wsCandidate {w0 w : World} (sid proto : Nat) (b64 : Bool) (h : Pres w
       · refine pr_setSockSame _ _ ?_ ?_
         · intro s; exact ⟨rfl, rfl, rfl, rfl, rfl⟩
         exact pr_fields _ h
+
+theorem pr_wtCandidate {w0 w : World} (sid : Nat) (h : Pres w0 w) : Pres w0 (wtCandidate w sid) := by
+  unfold wtCandidate; try dsimp only
+  have h1 : Pres w0 { w with conns := w.conns.push { wt := true } } := pr_fields _ h
+  split
+  · pr_auto
+  · split
+    · pr_auto
+    · refine pr_setSockSame _ _ ?_ ?_
+      · intro s; exact ⟨rfl, rfl, rfl, rfl, rfl⟩
+      exact pr_fields _ h1
 
 theorem pr_wsFrame {w0 w : World} (c : Nat) (m : Msg) (h : Pres w0 w) : Pres w0 (wsFrame w c m).1 := by
   unfold wsFrame; try dsimp only
@@ -370,6 +386,8 @@ theorem step_pres (w : World) (op : Op) : Pres w (step w op) := by
     | post sid b d body v => exact pr_postReq _ _ _ _ _ (Pres.refl _)
     | abort r => exact pr_abortReq _ (Pres.refl _)
     | wsCandidate sid p b => exact pr_wsCandidate _ _ _ (Pres.refl _)
+    | hsWt => exact pr_hsWt (Pres.refl _)
+    | wtCandidate sid => exact pr_wtCandidate _ (Pres.refl _)
     | frame c m =>
       dsimp only
       repeat' split
